@@ -600,7 +600,11 @@ pub enum SNode {
     Int(i64),
     UInt(u64),
     Float(f64),
-    Str(String),
+    /// string values are slices of pooled buffers: `buf[start..start + len]`. A string that occurs inside
+    /// a longer string of the same document (as a prefix by preference) shares that string's buffer, as
+    /// a rope, an arena or a zero-copy parser over one input text would; so two different strings may
+    /// start at the same address, and equal strings may live at different ones
+    Str(Rc<str>, usize, usize),
     Arr(Vec<ShareDoc>),
     /// member names are interned: equal names in different objects are one `String`
     Obj(Vec<(Rc<String>, ShareDoc)>),
@@ -629,7 +633,37 @@ fn flyweight(v: &ShareDoc) -> Option<&'static ShareDoc> {
 
 impl ShareDoc {
     pub fn from_value(v: &Value) -> ShareDoc {
-        fn build(v: &Value, pool: &mut std::collections::HashMap<String, Rc<SNode>>, names: &mut std::collections::HashMap<String, Rc<String>>) -> ShareDoc {
+        // the string pool: longest strings first, each later string placed inside an earlier buffer when
+        // it occurs there (at offset 0 by preference); the search is bounded to the first 64 buffers
+        fn collect<'a>(v: &'a Value, out: &mut Vec<&'a str>) {
+            match v {
+                Value::String(s) => out.push(s.as_str()),
+                Value::Array(a) => a.iter().for_each(|x| collect(x, out)),
+                Value::Object(o) => o.values().for_each(|x| collect(x, out)),
+                _ => {}
+            }
+        }
+        let mut all = vec![];
+        collect(v, &mut all);
+        all.sort_by(|a, b| b.len().cmp(&a.len()).then(a.cmp(b)));
+        all.dedup();
+        let mut bufs: Vec<Rc<str>> = vec![];
+        let mut strs: std::collections::HashMap<String, (Rc<str>, usize)> = std::collections::HashMap::new();
+        for s in all {
+            let near = &bufs[..bufs.len().min(64)];
+            let place = if s.is_empty() || s.len() > 4096 {
+                None
+            } else {
+                near.iter().find(|b| b.starts_with(s)).map(|b| (b.clone(), 0)).or_else(|| near.iter().find_map(|b| b.find(s).map(|at| (b.clone(), at))))
+            };
+            let place = place.unwrap_or_else(|| {
+                let b: Rc<str> = Rc::from(s);
+                bufs.push(b.clone());
+                (b, 0)
+            });
+            strs.insert(s.to_string(), place);
+        }
+        fn build(v: &Value, pool: &mut std::collections::HashMap<String, Rc<SNode>>, names: &mut std::collections::HashMap<String, Rc<String>>, strs: &std::collections::HashMap<String, (Rc<str>, usize)>) -> ShareDoc {
             let key = v.to_string();
             if let Some(n) = pool.get(&key) {
                 return ShareDoc(n.clone());
@@ -642,9 +676,12 @@ impl ShareDoc {
                     (None, Some(u)) => SNode::UInt(u),
                     (None, None) => SNode::Float(n.as_f64().unwrap_or(0.0)),
                 },
-                Value::String(s) => SNode::Str(s.clone()),
-                Value::Array(a) => SNode::Arr(a.iter().map(|x| build(x, pool, names)).collect()),
-                Value::Object(o) => SNode::Obj(o.iter().map(|(k, x)| (names.entry(k.clone()).or_insert_with(|| Rc::new(k.clone())).clone(), build(x, pool, names))).collect()),
+                Value::String(s) => {
+                    let (b, at) = strs.get(s.as_str()).cloned().unwrap_or_else(|| (Rc::from(s.as_str()), 0));
+                    SNode::Str(b, at, s.len())
+                }
+                Value::Array(a) => SNode::Arr(a.iter().map(|x| build(x, pool, names, strs)).collect()),
+                Value::Object(o) => SNode::Obj(o.iter().map(|(k, x)| (names.entry(k.clone()).or_insert_with(|| Rc::new(k.clone())).clone(), build(x, pool, names, strs))).collect()),
             };
             let rc = Rc::new(node);
             // integers and floats that print alike must not be merged (1 and 1.0 print differently in
@@ -652,7 +689,7 @@ impl ShareDoc {
             pool.insert(key, rc.clone());
             ShareDoc(rc)
         }
-        build(v, &mut std::collections::HashMap::new(), &mut std::collections::HashMap::new())
+        build(v, &mut std::collections::HashMap::new(), &mut std::collections::HashMap::new(), &strs)
     }
     pub fn to_value(&self) -> Value {
         match &*self.0 {
@@ -661,7 +698,7 @@ impl ShareDoc {
             SNode::Int(i) => Value::Number(Number::from(*i)),
             SNode::UInt(u) => Value::Number(Number::from(*u)),
             SNode::Float(f) => Number::from_f64(*f).map(Value::Number).unwrap_or(Value::Null),
-            SNode::Str(s) => Value::String(s.clone()),
+            SNode::Str(b, at, len) => Value::String(b[*at..*at + *len].to_string()),
             SNode::Arr(a) => Value::Array(a.iter().map(|x| x.to_value()).collect()),
             SNode::Obj(o) => {
                 let mut m = Map::new();
@@ -693,7 +730,7 @@ impl Default for ShareDoc {
         if personality().default_is_null() {
             ShareDoc(Rc::new(SNode::Null))
         } else {
-            ShareDoc(Rc::new(SNode::Str("<default>".into())))
+            ShareDoc::from("<default>")
         }
     }
 }
@@ -714,12 +751,12 @@ impl PartialEq for ShareDoc {
 }
 impl From<&str> for ShareDoc {
     fn from(s: &str) -> Self {
-        ShareDoc(Rc::new(SNode::Str(s.to_string())))
+        ShareDoc(Rc::new(SNode::Str(Rc::from(s), 0, s.len())))
     }
 }
 impl From<String> for ShareDoc {
     fn from(s: String) -> Self {
-        ShareDoc(Rc::new(SNode::Str(s)))
+        ShareDoc::from(s.as_str())
     }
 }
 impl From<bool> for ShareDoc {
@@ -766,7 +803,7 @@ impl Queryable for ShareDoc {
     }
     fn as_str(&self) -> Option<&str> {
         match &*self.0 {
-            SNode::Str(s) => Some(s.as_str()),
+            SNode::Str(b, at, len) => Some(&b[*at..*at + *len]),
             _ => None,
         }
     }
